@@ -11,8 +11,8 @@ import json, os, re, shutil, subprocess, sys, tempfile, threading, time
 
 HERE = os.path.dirname(os.path.abspath(__file__))
 THEORIES = os.environ.get("GODS_THEORIES", "/verif/coq/theories")
-BUDGET = float(os.environ.get("SRCGEN_BUDGET", "52"))     # seconds after which no further retry is started
-COQC_TIMEOUT = int(os.environ.get("SRCGEN_COQC_TIMEOUT", "50"))
+BUDGET = float(os.environ.get("SRCGEN_BUDGET", "70"))     # seconds after which no further retry is started
+COQC_TIMEOUT = int(os.environ.get("SRCGEN_COQC_TIMEOUT", "120"))
 T0 = time.time()
 
 ITEM = re.compile(r"^\s*(Theorem|Lemma|Corollary)\s+([A-Za-z_][A-Za-z0-9_']*)")
